@@ -6,8 +6,6 @@ import numpy as np
 
 from harness.common import frac, err_kind, deep_compare
 
-DISABLED = True
-
 PID = "C41"
 THEOREMS = [
     "PorepyVerif.C41.multilinear_as_tree",
@@ -46,6 +44,8 @@ TRUSTED = [
     "(= exact membership on the generated grids), np.unique(axis=1) (= C46.uniqueCoords)",
     "the SparseNdArray model and its refinement theorem are those of C46 (lean/PorepyVerif/C46)",
     "binary64 rounding: the theorems are over exact rationals; the correspondence check only generates inputs on which binary64 is exact",
+    "assign_values / quadrature_points_from_coordinates (table fed from outside) are modelled and compared (values, storage order after a "
+    "permuted assignment), but no theorem is stated about that path; numpy negative-index wrap-around is not modelled (indices are proved in range)",
 ]
 EXPLANATION = ("FULL over exact rationals: model = base-vertex search, weights, vertex enumeration with strides, interpolate, gradient as coded, "
                "adaptive table on the C46 SparseNdArray model incl. safeguarding and assign_values; theorems: exactness of interpolate for every "
@@ -361,6 +361,8 @@ def _run_std(case, fn):
         return [{"ctor": err_kind(e)}]
     for call in case["calls"]:
         x = _arr(call["pts"], d)
+        if len(call["pts"]) == 1 and case.get("rot", 0) % 2 == 0:
+            x = x[:, 0]  # a single point may be passed as a 1-d array (standard table only)
         try:
             out.append(_res(t.interpolate(x) if call["op"] == "interp" else t.gradient(x, call["axis"])))
         except Exception as e:
